@@ -197,7 +197,7 @@ const NA: usize = ALPHA.len();
 
 pub fn c19(a: &Args) -> (Stats, String) {
     let t = Timer::new();
-    let n = if a.thorough { 7 } else { 6 };
+    let n = if a.thorough { 8 } else { 6 };
     // TEXT(n): one job per 2-byte prefix (121) plus one for the short strings
     let dummy: Vec<Job> = (0..NA * NA + 3).map(|_| -> Job { Box::new(|_e: &mut fam::Emit| {}) }).collect();
     let st = run_jobs(
